@@ -63,6 +63,9 @@ TIMEOUT = 20.0
 
 def generate(ctx):
     from translator import gen_structure
+    # tolerant pre-scan first: the search needs it precisely when the strict scan below fails closed
+    ctx.diag = gen_structure.diagnose()
+    ctx.stats["diagnose"] = ctx.diag
     text, facts = gen_structure.generate()
     ctx.write_gen("GenStructure.v", text)
     ctx.facts = facts
@@ -741,23 +744,219 @@ async def _disconnect_cases(ctx, ncase, fails):
 # ---------------------------------------------------------------------------------------------
 
 
+# ---------------------------------------------------------------------------------------------
+# size scaling: the same late rejections / concurrency with long path lists
+# ---------------------------------------------------------------------------------------------
+
+SIZES = [1, 10, 100, 600, 1100, 2500]
+LIST_HANDLERS = ("declare_static", "define_step", "amend_step", "register_glob")
+
+
+def _paths(n, tag, stem, ext, bad=None):
+    """n good paths; with `bad`, about the first 3/4 sort before it and the rest after it, so that the
+    rejected path lies in the last quarter and is followed by further entries when n > 4."""
+    head = n if bad is None else max(1, n - n // 4)
+    good = [f"a{tag}/{stem}{i:05d}{ext}" for i in range(head)] + [f"zz{tag}/{stem}{i:05d}{ext}" for i in range(n - head)]
+    return sorted(good + ([bad] if bad is not None else []))
+
+
+def scaled_scenarios(n, tag):
+    """(kind, handler, expect, job -> request). Every list parameter of every list-taking handler, accepted and
+    rejected on an entry in the last quarter."""
+    cmd = f"sc{tag}_{n}"
+    D = lambda j, i, o, v: {"name": "define_step", "args": [j, cmd, i, [], o, v, ".", DEFAULT, {}]}  # noqa: E731
+    A = lambda j, i, o, v: {"name": "amend_step", "args": [j, i, [], o, v]}  # noqa: E731
+    S = lambda j, t, f, p: {"name": "declare_static", "args": [j, t, f, p]}  # noqa: E731
+    pats = lambda bad: (  # noqa: E731
+        [(f"a{tag}/q{i:05d}/*.x", [f"a{tag}/q{i:05d}/m.x"]) for i in range(max(1, n - n // 4))]
+        + ([("*.txt", ["o1.txt"])] if bad else [])
+        + [(f"zz{tag}/q{i:05d}/*.x", [f"zz{tag}/q{i:05d}/m.x"]) for i in range(n // 4)])
+    f = lambda bad=None: _paths(n, tag, "p", ".txt", bad)  # noqa: E731
+    o = lambda bad=None: _paths(n, tag, "o", ".out", bad)  # noqa: E731
+    v = lambda bad=None: _paths(n, tag, "v", ".vol", bad)  # noqa: E731
+    t = lambda bad=None: _paths(n, tag, "d", "/", bad)  # noqa: E731
+    return [
+        ("static_files", "declare_static", "reject", lambda j: S(j, [], f("o2.txt"), [])),
+        ("static_files", "declare_static", "accept", lambda j: S(j, [], f(), [])),
+        ("static_trees", "declare_static", "reject", lambda j: S(j, t("tree/sub/"), [], [])),
+        ("static_trees", "declare_static", "accept", lambda j: S(j, t(), [], [])),
+        ("static_patterns", "declare_static", "reject", lambda j: S(j, [], [], pats(True))),
+        ("static_patterns", "declare_static", "accept", lambda j: S(j, [], [], pats(False))),
+        ("static_files_then_pattern", "declare_static", "reject", lambda j: S(j, [], f(), [("*.txt", ["o1.txt"])])),
+        ("define_inp", "define_step", "reject", lambda j: D(j, f("v1.txt"), [cmd + ".out"], [])),
+        ("define_inp", "define_step", "accept", lambda j: D(j, f(), [cmd + ".out"], [])),
+        ("define_out_cycle", "define_step", "reject", lambda j: D(j, ["o1.txt"], o("late_in.txt"), [])),
+        ("define_out_tree", "define_step", "reject", lambda j: D(j, [], o("tree/made.txt"), [])),
+        ("define_out", "define_step", "accept", lambda j: D(j, ["o1.txt"], o(), [])),
+        ("define_vol", "define_step", "reject", lambda j: D(j, [], [cmd + ".out"], v("late_in.txt"))),
+        ("define_vol", "define_step", "accept", lambda j: D(j, [], [cmd + ".out"], v())),
+        ("amend_inp", "amend_step", "reject", lambda j: A(j, f("v1.txt"), [], [])),
+        ("amend_inp", "amend_step", "accept", lambda j: A(j, f(), [], [])),
+        ("amend_out", "amend_step", "reject", lambda j: A(j, f(), o("o1.txt"), [])),
+        ("amend_out", "amend_step", "accept", lambda j: A(j, [], o(), [])),
+        ("amend_vol", "amend_step", "reject", lambda j: A(j, f(), [], v("voldir/"))),
+        ("amend_vol", "amend_step", "accept", lambda j: A(j, [], [], v())),
+        ("glob_paths", "register_glob", "reject", lambda j: {"name": "register_glob", "args": [j, "**", {}, f("o1.txt")]}),
+        ("glob_paths", "register_glob", "accept", lambda j: {"name": "register_glob", "args": [j, "**", {}, f()]}),
+    ]
+
+
+def _short(req):
+    """A request with its long lists abbreviated, for messages; witnesses keep the generator parameters."""
+    def ab(x):
+        if isinstance(x, list) and len(x) > 6:
+            return [*x[:2], f"... {len(x) - 4} more ...", *x[-2:]]
+        return x
+    return {"name": req["name"], "args": [ab(a) for a in req["args"]]}
+
+
+def size_plan(ctx, deep):
+    """Sizes to try per handler: the fixed ladder plus n-1, n, n+1, 2n+1 around every integer literal >= 16 that the
+    tolerant pre-scan saw in a handler (or in the mutating Workflow methods)."""
+    diag = getattr(ctx, "diag", None) or {}
+    extra = set()
+    for lits in diag.get("boundaries", {}).values():
+        for n in lits:
+            if n <= 6000:
+                extra |= {n - 1, n, n + 1, 2 * n + 1}
+    extra = sorted(x for x in extra if x >= 1)
+    if deep:
+        return sorted(set(SIZES) | set(extra)), extra
+    pick = [1, 10, 100, ctx.rng.choice([600, 1100, 2500])]
+    return sorted(set(pick) | set(extra)), extra
+
+
+def _suspects(ctx):
+    diag = getattr(ctx, "diag", None) or {}
+    out = []
+    for h in list(diag.get("suspects", {})) + list(diag.get("multi_block", {})):
+        if (h != "amend_step" or h in diag.get("suspects", {})) and h not in out:
+            out.append(h)
+    return out
+
+
+async def _scaled_rollback(ctx, sizes, fails, only=None, budget=None):
+    import time
+    t0 = time.time()
+    for n in sizes:
+        for kind, handler, expect, mk in scaled_scenarios(n, "r"):
+            if only and handler not in only:
+                continue
+            if budget and time.time() - t0 > budget:
+                ctx.count("Rn:budget_exhausted")
+                return
+            job = 2
+            req = mk(job)
+            async with World() as w:
+                before = w.dump()
+                ch0 = w.con.total_changes
+                reply = await w.call(req)
+                wrote = w.con.total_changes - ch0
+                after = w.dump()
+            rejected = reply[0] == "err"
+            ctx.count(f"Rn:{kind}:{'rejected' if rejected else 'accepted'}")
+            ctx.case(("Rn", kind, expect, n), (rejected and wrote > 0) or (not rejected and after != before))
+            if (expect == "reject") != rejected:
+                ctx.count(f"Rn:unexpected_reply:{kind}:{expect}")
+            if rejected and after != before:
+                fails.append(("rollback", f"{kind}:n={n}",
+                              {"scaled": {"kind": kind, "expect": expect, "n": n, "job": job}, "history": [],
+                               "request_short": _short(req), "request": req if n <= 12 else None,
+                               "reply": reply, "rows_written": wrote, "diff": dump_diff(before, after)}))
+
+
+async def _scaled_concurrent(ctx, sizes, fails, only=None, budget=None):
+    """A long request and a short one from another step, both queued on the lock (so that the lock is contended
+    whenever the long one leaves a transaction: if its handler used several, the short one runs in between)."""
+    import time
+    t0 = time.time()
+    small = {"name": "define_step", "args": [3, "small", ["o2.txt", "n/s1.txt"], ["EV1"], ["small.out"], ["small.vol"],
+                                               ".", DEFAULT, {}]}
+    for n in sizes:
+        for kind, handler, expect, mk in scaled_scenarios(n, "s"):
+            if only and handler not in only:
+                continue
+            if budget and time.time() - t0 > budget:
+                ctx.count("Sn:budget_exhausted")
+                return
+            job = 2
+            reqs = [mk(job), small]
+            log = []
+            async with World() as w:
+                with _lock_log(log):
+                    await w.db.__aenter__()
+                    tasks = [asyncio.create_task(w.call(r), name=f"req{i}") for i, r in enumerate(reqs)]
+                    for _ in range(3):
+                        await asyncio.sleep(0)
+                    await w.db.__aexit__(None, None, None)
+                    log[:] = [x for x in log if x[1].startswith("req")]
+                    replies = await asyncio.wait_for(asyncio.gather(*tasks), 4 * TIMEOUT)
+                final = w.dump(True)
+            order = []
+            for ev, name in log:
+                if ev == "begin" and int(name[3:]) not in order:
+                    order.append(int(name[3:]))
+            async with World() as w2:
+                replies2 = {i: await w2.call(reqs[i]) for i in order}
+                ref = w2.dump(True)
+            nbegin = sum(1 for ev, name in log if ev == "begin" and name == "req0")
+            ctx.case(("Sn", kind, expect, n), True)
+            ctx.count(f"Sn:{handler}:transactions_of_long_request={nbegin}")
+            if final != ref or any(replies[i] != replies2[i] for i in order) or _interleaved(log):
+                fails.append(("serial", f"{kind}:n={n}",
+                              {"scaled": {"kind": kind, "expect": expect, "n": n, "job": job},
+                               "requests": [_short(r) for r in reqs], "lock_order": order,
+                               "lock_log": log[:30], "replies": replies,
+                               "replies_sequential": [replies2.get(i) for i in range(2)],
+                               "diff": dump_diff(ref, final), "hold_first": True}))
+
+
+async def _scaled_disconnect(ctx, sizes, fails, only):
+    for n in sizes:
+        for kind, handler, expect, mk in scaled_scenarios(n, "d"):
+            if handler not in only:
+                continue
+            job = 2
+            req = mk(job)
+            async with World() as w:
+                await _serve_frames(w, [_frame(1, req)], "close", True)
+                got = w.dump(True)
+            async with World() as w2:
+                base = w2.dump(True)
+                reply = await w2.call(req)
+                ref = w2.dump(True)
+            ctx.case(("Dn", kind, expect, n), ref != base)
+            ctx.count(f"Dn:{handler}")
+            if got != ref:
+                fails.append(("disconnect", f"{kind}:n={n}",
+                              {"scaled": {"kind": kind, "expect": expect, "n": n, "job": job},
+                               "requests": [_short(req)], "mode": "close", "handler_blocked_on_lock": True,
+                               "effect": "absent" if got == base else "partial",
+                               "replies_when_connected": [reply], "diff": dump_diff(ref, got)}))
+
+
 def _report(ctx, fails):
     seen = set()
     for what, kind, wit in fails:
+        sc = wit.get("scaled")
+        size = f":n={sc['n']}" if sc else ""
         if what == "rollback":
-            sig = f"rollback:{wit['request']['name']}:{kind}:store-changed-after-rejection"
-            detail = (f"request {wit['request']} was rejected ({wit['reply']}) but the database differs: "
-                      f"{json.dumps(wit['diff'])[:700]}")
+            rq = wit.get("request") or wit.get("request_short")
+            kd = kind.split(":n=")[0]
+            sig = f"rollback:{rq['name']}:{kd}:store-changed-after-rejection"
+            detail = (f"request {wit.get('request_short') or rq}{size} was rejected ({wit['reply']}) but the "
+                      f"database differs: {json.dumps(wit['diff'])[:700]}")
             name = "oracle-R:rejected-request-leaves-store-unchanged"
         elif what == "serial":
-            sig = "serial:concurrent-requests-differ-from-lock-order"
-            detail = (f"concurrent requests {wit['requests']} (lock order {wit['lock_order']}) ended in a database "
-                      f"that differs from their sequential application: {json.dumps(wit['diff'])[:700]}")
+            sig = "serial:concurrent-requests-differ-from-lock-order" + (f":{sc['kind']}" if sc else "")
+            detail = (f"concurrent requests {wit['requests']}{size} (lock order {wit['lock_order']}, lock log "
+                      f"{wit.get('lock_log', [])[:12]}) ended in a database that differs from their sequential "
+                      f"application: {json.dumps(wit['diff'])[:700]}")
             name = "oracle-S:concurrent-equals-sequential"
         else:
-            sig = f"disconnect:request-{wit['effect']}-after-peer-gone"
-            detail = (f"frames {wit['requests']} were received in full, then the peer went away ({wit['mode']}); "
-                      f"effect is {wit['effect']}: {json.dumps(wit['diff'])[:700]}")
+            sig = f"disconnect:request-{wit['effect']}-after-peer-gone" + (f":{sc['kind']}" if sc else "")
+            detail = (f"frames {wit['requests']}{size} were received in full, then the peer went away "
+                      f"({wit['mode']}); effect is {wit['effect']}: {json.dumps(wit['diff'])[:700]}")
             name = "oracle-D:received-in-full-applied-in-full"
         if sig in seen:
             continue
@@ -765,12 +964,28 @@ def _report(ctx, fails):
         ctx.add_failure("oracle", name, sig, detail, witness=wit)
 
 
-def _run_oracle(ctx, nsession, nconc, ndisc):
+def _run_oracle(ctx, nsession, nconc, ndisc, deep=False):
+    """deep = search() or the thorough tier: the full size ladder. When the translator failed closed on a handler
+    (or a handler other than amend_step has several `async with`), that handler is examined first."""
     fails = []
+    sizes, extra = size_plan(ctx, deep)
+    suspects = [h for h in _suspects(ctx) if h in LIST_HANDLERS]
+    ctx.stats["scaled_sizes"] = sizes
+    ctx.stats["boundary_sizes"] = extra
+    ctx.stats["suspect_handlers"] = suspects
 
     async def main():
+        if suspects:
+            full = sorted(set(SIZES) | set(extra))
+            await _scaled_rollback(ctx, full, fails, only=suspects)
+            await _scaled_concurrent(ctx, full, fails, only=suspects)
+            await _scaled_disconnect(ctx, [s for s in full if s <= 1100], fails, only=suspects)
+        rest = [h for h in LIST_HANDLERS if h not in suspects]
         await _rollback_sessions(ctx, nsession, fails)
+        await _scaled_rollback(ctx, sizes, fails, only=rest, budget=None if deep else 25)
         await _concurrent_cases(ctx, nconc, fails)
+        await _scaled_concurrent(ctx, sizes if deep else [s for s in sizes if s <= 100 or s in extra], fails,
+                                 only=rest, budget=None if deep else 15)
         await _disconnect_cases(ctx, ndisc, fails)
 
     import logging
@@ -782,18 +997,28 @@ def _run_oracle(ctx, nsession, nconc, ndisc):
 
 
 def oracle(ctx):
-    _run_oracle(ctx, ctx.scale(70, 700), ctx.scale(30, 300), ctx.scale(30, 300))
+    _run_oracle(ctx, ctx.scale(70, 700), ctx.scale(30, 300), ctx.scale(30, 300), deep=ctx.thorough())
 
 
 def search(ctx):
-    _run_oracle(ctx, 400, 150, 150)
+    if not hasattr(ctx, "diag"):
+        from translator import gen_structure
+        ctx.diag = gen_structure.diagnose()
+    _run_oracle(ctx, 300, 100, 100, deep=True)
 
 
 def replay(ctx, obj):
     w = obj["failure"].get("witness")
     print("replaying", json.dumps(w)[:400])
-    if not w or "history" not in w:
-        oracle(ctx)
+    if w and w.get("scaled") and "history" in w:
+        sc = w["scaled"]
+        for kind, handler, expect, mk in scaled_scenarios(sc["n"], "r"):
+            if kind == sc["kind"] and expect == sc["expect"]:
+                w = dict(w, request=mk(sc["job"]))
+    if not w or "history" not in w or not w.get("request"):
+        from translator import gen_structure
+        ctx.diag = gen_structure.diagnose()
+        _run_oracle(ctx, 20, 10, 10, deep=True)
         return
     fails = []
 
